@@ -258,6 +258,35 @@ def r2_dispatch(ck, prog, run):
             found = str([{k: str(v)[:50] for k, v in a.items() if not isinstance(v, NoneV)} for a in fa[:2]])
         ck.same("R2", f.where, tag, "the single-double quotient is only a coarse estimate: divisor*quotient is rebuilt as a two-part Phase and subtracted part-wise (exact correction)",
                 ok, found=found, nontrivial=True)
+    # ---- the same family with a Phase as divisor, and with a Phase dividing a plain Quantity
+    for name in ("floor_divide", "remainder", "divmod"):
+        for label, mk, si in (("Phase, Phase", lambda p, q: [p, q], 0), ("Quantity in cycles, Phase", lambda p, q: [d, q], 1)):
+            n_fam += 1
+            p, q = make_phase(prog, "p"), make_phase(prog, "q")
+            tag = f"np.{name}({label})"
+            try:
+                res, events, calls, ev = run_uf(prog, name, mk(p, q), si)
+            except Raised as e:
+                ck.same("R2", f.where, tag, "terminates: the operation is carried out (or refused) without re-entering itself", e.exc_name != "RecursionError",
+                        found=str(e)[:160], nontrivial=True)
+                if e.exc_name != "RecursionError":
+                    ck.unk("R2", f.where, tag, "evaluates on the Phase model", str(e)[:160])
+                continue
+            except (Unsupported, DimensionError) as e:
+                ck.unk("R2", f.where, tag, "evaluates on the Phase model", str(e)[:200])
+                continue
+            ck.same("R2", f.where, tag, "terminates: the operation is carried out (or refused) without re-entering itself", True)
+            if si == 0:
+                fa = [e_[1] for e_ in events if e_[0] == "from_angles"]
+                # the correction must be built from both parts of the divisor (a Phase passed whole, or its 'int' and 'frac')
+                def two_part(a_):
+                    p1, p2 = a_["phase1"], a_["phase2"]
+                    whole = p1 is q
+                    parts = isinstance(p1, Num) and isinstance(p2, Num) and p1.expr == part(q, "int").expr and p2.expr == part(q, "frac").expr
+                    return whole or parts
+                ok = len(fa) >= 1 and two_part(fa[0]) and isinstance(fa[0]["factor"], Num)
+                ck.same("R2", f.where, tag + ": correction", "divisor*quotient is rebuilt from both parts of the Phase divisor (no single-double divisor in the exact step)",
+                        ok, found=str([{k: str(v)[:40] for k, v in a_.items() if not isinstance(v, NoneV)} for a_ in fa[:2]]), nontrivial=True)
     # ---- functions of the fractional part only
     for name in ("sin", "cos", "tan"):
         n_fam += 1
@@ -277,7 +306,7 @@ def r2_dispatch(ck, prog, run):
         ok = len(calls) == 1 and isinstance(calls[0][2][0], Num) and sp.simplify(calls[0][2][0].expr - sp.I * p.attrs["_pfrac"].expr * CYCLE) == 0
         ck.same("R2", f.where, "np.exp(1j * phase)", "evaluated on i * 2*pi * frac only (the cycle count does not enter)", ok,
                 found=str([[str(x)[:60] for x in t[2]] for t in calls]), nontrivial=True)
-    run.floor("R2", "ufunc family / operand arrangements evaluated", n_fam, 45)
+    run.floor("R2", "ufunc family / operand arrangements evaluated", n_fam, 51)
 
 
 # ---------------------------------------------------------------------------------------- R3 / R4
